@@ -30,7 +30,7 @@ def sh(cmd, cwd=None, timeout=600):
 def evaluate(cand_dir, pid, k):
     patch = os.path.join(cand_dir, "patch.diff")
     demo = os.path.join(cand_dir, "demo.py")
-    out = {"id": "%s-%s" % (pid, k), "property": pid, "dir": cand_dir}
+    out = {"id": "%s-%s%s" % (pid, k, os.environ.get("ID_SUFFIX", "")), "property": pid, "dir": cand_dir}
     d = tempfile.mkdtemp(prefix="seedeval.")
     try:
         subprocess.run("git -C /repo archive HEAD | tar -x -C %s" % d, shell=True, check=True)
@@ -76,6 +76,7 @@ def main():
             if os.path.exists(os.path.join(p, "patch.diff")):
                 pid, k = name.split("-", 1)
                 cands.append((p, pid, k))
+        os.environ["ID_SUFFIX"] = ""
     else:
         root = args[0]
         for pid in sorted(os.listdir(root)):
